@@ -16,6 +16,7 @@
 package main
 
 import (
+	"context"
 	"encoding/json"
 	"fmt"
 	"os"
@@ -23,6 +24,9 @@ import (
 	"strings"
 	"time"
 
+	"github.com/spiffe/go-spiffe/v2/spiffeid"
+
+	"github.com/dapr/kit/crypto/spiffe/trustanchors"
 	"verifharness/lib"
 )
 
@@ -268,7 +272,49 @@ func probeTA() {
 	}
 }
 
+// probeStall: a Watch subscriber whose consumer never reads; the file is updated repeatedly; does a
+// reader still get through?  (Observation recorded in design/C19.md; outside the property statement.)
+func probeStall() {
+	roots := newTARoots(3)
+	dir, _ := os.MkdirTemp("", "c19-stall-")
+	defer os.RemoveAll(dir)
+	path := filepath.Join(dir, "ca.pem")
+	os.WriteFile(path, roots.pems[1], 0o644)
+	ta := trustanchors.VerifFromFile(trustanchors.OptionsFile{Log: quietLog, Path: path}, 3*time.Millisecond, 2*time.Millisecond)
+	ctx, cancel := context.WithCancel(context.Background())
+	defer cancel()
+	go ta.Run(ctx)
+	if _, err := ta.CurrentTrustAnchors(ctx); err != nil {
+		fmt.Println("source did not come up:", err)
+		return
+	}
+	go ta.Watch(ctx, make(chan []byte)) // nobody ever receives
+	time.Sleep(20 * time.Millisecond)
+	for i := 0; i < 12; i++ {
+		tmp := path + ".tmp"
+		os.WriteFile(tmp, roots.pems[1+i%3], 0o644)
+		os.Rename(tmp, path)
+		time.Sleep(30 * time.Millisecond)
+		done := make(chan struct{})
+		go func() {
+			ta.GetX509BundleForTrustDomain(spiffeid.RequireTrustDomainFromString("example.org"))
+			close(done)
+		}()
+		select {
+		case <-done:
+			fmt.Printf("update %d: reader returned\n", i+1)
+		case <-time.After(500 * time.Millisecond):
+			fmt.Printf("update %d: reader BLOCKED for 500 ms (updateAnchors holds the write lock waiting for the subscriber)\n", i+1)
+			return
+		}
+	}
+}
+
 func main() {
+	if len(os.Args) > 1 && os.Args[1] == "probestall" {
+		probeStall()
+		return
+	}
 	if len(os.Args) > 1 && os.Args[1] == "probeta" {
 		probeTA()
 		return
